@@ -81,27 +81,29 @@ class UI(object):
         if cmd and cmd is self._prev_cmd:
             return None
 
+        # the text is passed through str.format later on, braces in details are literal
         text = None
         if run_id:
-            text = "\nExecuting run:" + run_id.as_simple_string() + "\n"
+            text = "\nExecuting run:" + escape_braces(run_id.as_simple_string()) + "\n"
 
         if cmd and text:
-            text += _DETAIL_INDENT + "cmd: " + cmd + "\n"
+            text += _DETAIL_INDENT + "cmd: " + escape_braces(cmd) + "\n"
         elif cmd:
-            text = "\nExecuting cmd: " + cmd + "\n"
+            text = "\nExecuting cmd: " + escape_braces(cmd) + "\n"
 
         assert text
         if cwd:
-            text += _DETAIL_INDENT + "cwd: " + cwd + "\n"
+            text += _DETAIL_INDENT + "cwd: " + escape_braces(cwd) + "\n"
         elif run_id and run_id.location:
-            text += _DETAIL_INDENT + "cwd: " + run_id.location + "\n"
+            text += _DETAIL_INDENT + "cwd: " + escape_braces(run_id.location) + "\n"
         else:
-            text += _DETAIL_INDENT + "cwd: " + getcwd() + "\n"
+            text += _DETAIL_INDENT + "cwd: " + escape_braces(getcwd()) + "\n"
 
         if env:
             text += _DETAIL_INDENT + "env:\n"
             for k, v in env.items():
-                text += f'{_DETAIL_INDENT}{_DETAIL_INDENT}{k}="{escape_braces(v)}"\n'
+                text += (f'{_DETAIL_INDENT}{_DETAIL_INDENT}{escape_braces(k)}='
+                         f'"{escape_braces(v)}"\n')
 
         self._prev_run_id = run_id
         self._prev_cmd = cmd
